@@ -14,7 +14,7 @@
 //   apifail       ... with an error and no effect
 // Environment steps change vSim (if enabled there; otherwise they are counted as skipped):
 //   usercancel userhold procrunning procfinalize procend proccrash vmboot vmbreak opsetib update
-//   probestart probeend startexec killtick idleshutdown destroyok instancegone restart
+//   probestart probeend startexec killtick idleshutdown opkill destroyok instancegone restart
 // Random scenarios (mode "random"): the driver draws enabled steps itself with a seeded generator
 // over larger instances; same recording.
 // The driver decides nothing; the recorded events are judged by specs/dispatch/DispatchTrace.tla.
@@ -464,6 +464,12 @@ func (r *vSchedRun) apply(st vStep, ahead []vStep) bool {
 			s.notify()
 			return true
 		}
+	case "opkill":
+		if st := s.wk[w].st; st != "absent" && st != "shutdown" {
+			s.shutdown(w)
+			s.notify()
+			return true
+		}
 	case "idleshutdown":
 		wk := s.wk[w]
 		if s.ib[w] != "hold" && (wk.st == "idle" || (wk.st == "booting" && s.ib[w] == "drain")) {
@@ -540,6 +546,9 @@ func (r *vSchedRun) candidates(scn *vSchedScenario, restartsLeft int) []vStep {
 			add("probeend", 0, w, "timeout", 1)
 		}
 		add("idleshutdown", 0, w, "", 1)
+		if s.wk[w].st != "absent" && len(out)%11 == 0 {
+			add("opkill", 0, w, "", 1)
+		}
 		add("destroyok", 0, w, "", 3)
 		add("instancegone", 0, w, "", 3)
 		for c := range s.wk[w].starting {
